@@ -10,6 +10,7 @@ F_OVERLAP = "C16-overlap-after-duration-change"
 F_DEFAULT = "C16-default-policy-dangling"
 F_HALF = "C16-create-measurement-half-applied"
 F_RENAME = "C16-policy-rename-stale-key"
+F_PANIC = "C16-ptview-without-database-panics-on-node-join"
 
 
 # ------------------------------------------------------------------------------------------------ rendering
@@ -114,6 +115,8 @@ def case_coq(cs):
     steps = []
     modelled = cs["modelled"]
     for c, r, d in zip(cs["cmds"], cs["res"], cs["dumps"]):
+        if r == 2:
+            break   # the state machine panicked: nothing to compare, the process is gone
         t = cmd_coq(c) if modelled else None
         if t is None:
             modelled = False
@@ -203,10 +206,25 @@ def main(ck):
     if rc != 0 or not cases:
         ck.broken.append("harness c16 failed rc=%d cases=%d: %s" % (rc, len(cases), out[-500:]))
         return
-    if any(2 in c["res"] for c in cases):
-        bad = next(c for c in cases if 2 in c["res"])
-        ck.broken.append("implementation panicked in case %s at step %d" % (bad["name"], bad["res"].index(2)))
-        ck.nofail_detail = {"kind": "panic", "case": {k: bad[k] for k in ("name", "ptper", "sclean", "modelled", "cmds")}}
+    panic_known = set()
+    for ci, bad in enumerate(cases):
+        if 2 not in bad["res"]:
+            continue
+        i = bad["res"].index(2)
+        c = bad["cmds"][i]
+        before = bad["dumps"][i - 1] if i > 0 else {"dbs": [], "ptview": []}
+        orphan = [v["db"] for v in before["ptview"] if v["db"] not in {d["key"] for d in before["dbs"]}]
+        # signature: a data-node join (CreateDataNodeCommand) panics while the partition view holds a database that is not
+        # in the catalogue (the view is created before the database by the server's createDatabase handler)
+        if c["k"] == "cnode" and orphan and ck.match_finding(F_PANIC):
+            panic_known.add(ci)
+            if any(F_PANIC in k for k in ck.known):
+                continue
+            ck.known_finding(F_PANIC, "the state machine panics on the node join at step %d of case %s (partition view for %s without a database)" % (i, bad["name"], orphan))
+            panic_known.add(ci)
+        else:
+            ck.violation({"kind": "direct-oracle", "what": {"kind": "panic", "step": i}, "case": {k: bad[k] for k in ("name", "ptper", "sclean", "modelled")} |
+                          {"cmds": bad["cmds"][:i + 1]}, "explanation": "storeFSM.executeCmd panicked on this command sequence"})
 
     # ---- model evaluation
     shard = 12 if ck.tier == "quick" else 40
@@ -263,6 +281,8 @@ def main(ck):
         if cs["nontrivial"]:
             nontriv.add(json.dumps(cs["cmds"], sort_keys=True))
         for f in cs["oracle"]:
+            if i in panic_known and cs["res"][f["step"]] == 2:
+                continue
             fid = classify(cs, f)
             if fid and ck.match_finding(fid):
                 if fid not in reported:
@@ -273,7 +293,7 @@ def main(ck):
         # the boolean well-formedness of the model, evaluated on the real dumps, agrees with the Go oracle
         v = verdicts[i] if i < len(verdicts) else None
         if v is not None:
-            go_bad = sorted({f["step"] for f in cs["oracle"] if f["kind"] in WF_KINDS})
+            go_bad = sorted({f["step"] for f in cs["oracle"] if f["kind"] in WF_KINDS and cs["res"][f["step"]] != 2})
             if go_bad != sorted(v["wf"]):
                 ck.broken.append("wf_b (Coq, on the real dumps) and the Go oracle disagree on case %s: coq=%s go=%s" % (cs["name"], v["wf"], go_bad))
     seen_v = set()
@@ -296,7 +316,7 @@ def main(ck):
                             {"cmds": cases[i]["cmds"][:k + 1]}, "step": k, "first_differences": {n: [cases[a]["name"], b] for n, (a, b) in first_bad.items()},
                             "explanation": "model and implementation states differ after this command; the direct oracle found no "
                             "violation of the statement outside the known findings"}
-    for fid in (F_OVERLAP, F_DEFAULT, F_HALF, F_RENAME):
+    for fid in (F_OVERLAP, F_DEFAULT, F_HALF, F_RENAME, F_PANIC):
         if ck.match_finding(fid) and fid not in reported and not getattr(ck, "replay", None):
             ck.notes.append("open finding %s did not reproduce in this run (stale?)" % fid)
 
